@@ -429,6 +429,13 @@ func (e *Env) cutLoop(fr *Frame, order []*ssa.BasicBlock, loops map[*ssa.BasicBl
 		e.assume(mkImp(hv.pc, t))
 	}
 	e.assume(mkImp(hv.pc, e.autoRangeInv(fr, li, hv)))
+	// the function's frame is an implicit loop invariant (checked on every back edge)
+	fg := e.frameGoals(hv)
+	for _, n := range sortedKeys(modified) {
+		if g, ok := fg[n]; ok {
+			e.assume(mkImp(hv.pc, g))
+		}
+	}
 	e.useAt(fr, "loop "+li.key+" head", hv)
 	return hv
 }
@@ -545,6 +552,12 @@ func (e *Env) loopBack(fr *Frame, li *loopInfo, from *ssa.BasicBlock, s *State) 
 	}
 	if a := e.autoRangeInv(fr, li, s); a != tTrue {
 		e.oblige("inv-step", "loop"+li.key+":auto-rangeindex", s.pc, a)
+	}
+	if e.dry == 0 {
+		fg := e.frameGoals(s)
+		for _, n := range sortedKeys2(fg) {
+			e.oblige("inv-step", "loop"+li.key+":frame:"+sanitize(n), s.pc, fg[n])
+		}
 	}
 	if e.dry == 0 {
 		e.cover("loop"+li.key+"-back", s.pc)
@@ -945,6 +958,21 @@ func (e *Env) sliceOp(fr *Frame, x *ssa.Slice, st *State) Value {
 		}
 		return &Slice{Arr: b.Arr, Off: e.maybeName(addTerms(b.Off, lo), sInt), Len: e.maybeName(sx("-", hi, lo), sInt), Cap: e.maybeName(sx("-", cp, lo), sInt), Typ: x.Type()}
 	case *Ptr:
+		if at, ok := b.pointee().Underlying().(*types.Array); ok && b.Kind != "arr" && isByte(at.Elem()) {
+			// slicing a byte array that is modelled as an atom: a view with unspecified contents
+			// (the relation between the atom and its bytes is not modelled)
+			n := fmt.Sprint(at.Len())
+			if lo == "" {
+				lo = "0"
+			}
+			if hi == "" {
+				hi = n
+			}
+			e.panicCheck(fr, "slice", st, mkAnd(sx("<=", "0", lo), sx("<=", lo, hi), sx("<=", hi, n)))
+			r := e.alloc(st)
+			e.trust("bytes of [N]byte values (hashes) are not related to the value: slices of them have unspecified contents")
+			return &Slice{Arr: r, Off: lo, Len: simplifySub(hi, lo), Cap: simplifySub(n, lo), Typ: x.Type()}
+		}
 		if b.Kind == "arr" {
 			at := b.Root.Underlying().(*types.Array)
 			n := fmt.Sprint(at.Len())
@@ -1263,4 +1291,13 @@ func (e *Env) payloadAtEntry(iface string, t types.Type, leaves []string) {
 			e.assume(mkImp(sx("atentry", iface), sx("atentry", leaves[i])))
 		}
 	}
+}
+
+func sortedKeys2(m map[string]string) []string {
+	var out []string
+	for k := range m {
+		out = append(out, k)
+	}
+	sort.Strings(out)
+	return out
 }
